@@ -277,7 +277,13 @@ func (c *Container) dispatch(httpWriter http.ResponseWriter, httpRequest *http.R
 	}
 
 	// Unless httpWriter is already an CompressingResponseWriter see if we need to install one
-	if _, isCompressing := httpWriter.(*CompressingResponseWriter); !isCompressing {
+	if compressing, isCompressing := httpWriter.(*CompressingResponseWriter); isCompressing {
+		// ServeHTTP installed it from the container's setting before the route was known ;
+		// the route's own setting overrides that
+		if c.contentEncodingEnabled && route != nil && route.contentEncodingEnabled != nil && !*route.contentEncodingEnabled {
+			compressing.cancel()
+		}
+	} else {
 		// Detect if compression is needed
 		// assume without compression, test for override
 		contentEncodingEnabled := c.contentEncodingEnabled
